@@ -789,7 +789,7 @@ class SecureSequenceTimer:
         except asyncio.CancelledError:
             if waiter_fut.cancelled():
                 # `stop()` while synchronizing - eg. the user disconnected
-                raise CommunicationError("Timer synchronization aborted") from None
+                raise IPSecureError("Timer synchronization aborted") from None
             raise
         finally:
             self._expected_notify_handler = None
